@@ -36,6 +36,8 @@ class Sched:
         import random as _random
         self.rnd = _random.Random(sched_seed) if sched_seed is not None else None
         self.tls = threading.local()
+        self.kill_merger = 0       # k > 0: the k-th merge process is killed before it runs (exit code -9)
+        self.n_mergers = 0
         self.log = []              # (kind, who, what)
         main = _T("main", None)
         main.started = True
@@ -126,6 +128,15 @@ class FakeProcess:
 
     def start(self):
         s = self.sched
+        if getattr(self.target, "__name__", "") == "_merge_worker":
+            s.n_mergers += 1
+            if s.n_mergers == s.kill_merger:
+                with s.cv:
+                    s.threads.append(self.t)
+                    self.t.started = True
+                    self.t.killed = True          # killed by the system before doing anything
+                s.log.append(("merger_killed", self.t.name, s.n_mergers))
+                return
         self.thread = threading.Thread(target=self._run, daemon=True)
         with s.cv:
             s.threads.append(self.t)
@@ -234,11 +245,12 @@ class FakeContext:
 
 
 def run_parallel_add(items, callback, n_workers, cms_args=None, hh_args=None, hll_args=None, assign=None,
-                     sched_seed=None, **kwargs):
+                     sched_seed=None, kill_merger=0, **kwargs):
     """Run the real helpers.parallel_add under the deterministic scheduler.
     Returns (outcome, value, sched): outcome in {"returned", "raised", "hang"}."""
     helpers = impl.helpers
     sched = Sched(assign, sched_seed=sched_seed)
+    sched.kill_merger = kill_merger
     ctx = FakeContext(sched)
     old_ctx, old_sleep = helpers.get_context, helpers.sleep
     helpers.get_context = lambda _method=None: ctx
